@@ -27,6 +27,14 @@ def fastCorr (L : Rat → Rat) (mask frame : Int → Int → Rat) (fy fx c : Int
   corrMap Gen.fast_corr_shift mask
     (logCrop L (fun y x => cropPixel frame fy fx c p.1 p.2 y x) (2 * c) (2 * c)) (2 * c) (2 * c)
 
+/-- the per-crop part of the crop-based method (log scaling, correlation, evaluation kernels): a function
+of the `2c × 2c` crop alone -/
+def fastEval (L : Rat → Rat) (mask : Int → Int → Rat) (c : Int) (crop : Int → Int → Rat) : EvalOut :=
+  evaluate (corrMap Gen.fast_corr_shift mask (logCrop L crop (2 * c) (2 * c)) (2 * c) (2 * c)) (2 * c) (2 * c)
+
+/-- the per-crop part of the full-frame method: the evaluation kernels on the crop of the correlation map -/
+def fullEval (c : Int) (crop : Int → Int → Rat) : EvalOut := evaluate crop (2 * c) (2 * c)
+
 /-- one peak of `process_frame_fast` -/
 def fastPeak (L : Rat → Rat) (mask frame : Int → Int → Rat) (fy fx c : Int) (p : Int × Int) : EvalOut :=
   reanchor (evaluate (fastCorr L mask frame fy fx c p) (2 * c) (2 * c)) p.1 p.2 c
